@@ -43,7 +43,10 @@ func (sc *sliceContainers) Put(key uint64, c *Container) {
 	} else {
 		sc.containers[i] = c
 	}
-
+	// keep the lookaside pointing at the container now stored at key
+	if key == sc.lastKey {
+		sc.lastContainer = c
+	}
 }
 
 func (sc *sliceContainers) PutContainerValues(key uint64, typ byte, n int, mapped bool) {
@@ -65,6 +68,9 @@ func (sc *sliceContainers) PutContainerValues(key uint64, typ byte, n int, mappe
 		c.setN(int32(n))
 		c.setMapped(mapped)
 		sc.containers[i] = c
+		if key == sc.lastKey {
+			sc.lastContainer = c
+		}
 	}
 
 }
@@ -159,7 +165,7 @@ func (sc *sliceContainers) Reset() {
 	sc.keys = sc.keys[:0]
 	sc.containers = sc.containers[:0]
 	sc.lastContainer = nil
-	sc.lastKey = 0
+	sc.lastKey = ^uint64(0)
 }
 
 func (sc *sliceContainers) ResetN(n int) {
@@ -171,7 +177,7 @@ func (sc *sliceContainers) ResetN(n int) {
 		sc.containers = sc.containers[:0]
 	}
 	sc.lastContainer = nil
-	sc.lastKey = 0
+	sc.lastKey = ^uint64(0)
 }
 
 func (sc *sliceContainers) seek(key uint64) (int, bool) {
@@ -206,13 +212,20 @@ func (sc *sliceContainers) Update(key uint64, fn func(*Container, bool) (*Contai
 		nc, write = fn(sc.containers[i], true)
 		if write {
 			sc.containers[i] = nc
+			if key == sc.lastKey {
+				sc.lastContainer = nc
+			}
 		}
 	} else {
 		nc, write = fn(nil, false)
 		// don't expand the slice just to add a nil container, we
 		// could return that anyway
 		if write && nc != nil {
-			sc.insertAt(key, nc, -i-1)
+			// seek already returned the insertion index
+			sc.insertAt(key, nc, i)
+			if key == sc.lastKey {
+				sc.lastContainer = nc
+			}
 		}
 	}
 }
@@ -225,6 +238,9 @@ func (sc *sliceContainers) UpdateEvery(fn func(uint64, *Container, bool) (*Conta
 		nc, write := fn(sc.keys[i], c, true)
 		if write {
 			sc.containers[i] = nc
+			if sc.keys[i] == sc.lastKey {
+				sc.lastContainer = nc
+			}
 		}
 	}
 }
